@@ -31,6 +31,8 @@ static void prop(Tape &t, Ctx &c) {
             type = key.type;
             VF_CHECK(key.type == PS_RSA || key.type == PS_ECC || key.type == PS_ED25519 || key.type == PS_DSA || key.type == PS_NOKEY || key.type == PS_X25519 || key.type == PS_DH,
                      "pkcs8-keytype", "unexpected key type %d after success", key.type);
+            // a key of a type the parser builds itself is complete and its size members agree (c09_common.h)
+            if (key.type == PS_RSA || key.type == PS_ECC) check_privkey(&key, 0, "psPkcs8ParsePrivBin");
             psClearPubKey(&key);
         }
         C09_LEAK_CHECK(leak, "rc=%d pass=%s", rc, pass ? pass : "(null)");
